@@ -5,29 +5,29 @@
    pipes, buffering, all interleavings) is the wrapper transition system of
    WrapDefs.v: it delivers the queue entries in order and the child's answer
    lines in order, which is all this level needs. *)
-From Coq Require Export List ZArith Arith Bool.
+From Coq Require Export List ZArith NArith Arith Bool.
 Export ListNotations.
 
 Definition line := list Z.
 
-Fixpoint lookup {V} (k : nat) (t : list (nat * V)) : option V :=
+Fixpoint lookup {V} (k : N) (t : list (N * V)) : option V :=
   match t with
   | [] => None
-  | (k', v) :: r => if Nat.eqb k k' then Some v else lookup k r
+  | (k', v) :: r => if N.eqb k k' then Some v else lookup k r
   end.
 
-Definition mem (k : nat) (s : list nat) : bool := existsb (Nat.eqb k) s.
+Definition mem (k : N) (s : list N) : bool := existsb (N.eqb k) s.
 
 (* Input(): `cache.insert(entry)`; forward the line iff newly inserted; enqueue a pointer to the entry.
    Result: per input line (key, forwarded?) *)
-Fixpoint feeder (ls : list (nat * line)) (seen : list nat) : list (nat * bool) :=
+Fixpoint feeder (ls : list (N * line)) (seen : list N) : list (N * bool) :=
   match ls with
   | [] => []
   | (k, _) :: r => if mem k seen then (k, false) :: feeder r seen else (k, true) :: feeder r (k :: seen)
   end.
 
 (* the child's stdin: the forwarded lines, in order *)
-Fixpoint sent (ls : list (nat * line)) (seen : list nat) : list line :=
+Fixpoint sent (ls : list (N * line)) (seen : list N) : list line :=
   match ls with
   | [] => []
   | (k, l) :: r => if mem k seen then sent r seen else l :: sent r (k :: seen)
@@ -35,7 +35,7 @@ Fixpoint sent (ls : list (nat * line)) (seen : list nat) : list line :=
 
 (* Output(): for each queue entry: if the entry has no value yet, read one line from the child and
    store it; print the entry's value.  None = the child stopped early (EndOfFileException). *)
-Fixpoint collector (q : list nat) (table : list (nat * line)) (answers : list line) : list (option line) :=
+Fixpoint collector (q : list N) (table : list (N * line)) (answers : list line) : list (option line) :=
   match q with
   | [] => []
   | k :: r =>
@@ -50,29 +50,62 @@ Fixpoint collector (q : list nat) (table : list (nat * line)) (answers : list li
   end.
 
 (* does Output() read a child line for this entry?  (the bookkeeping `need` of the wrapper system) *)
-Fixpoint collector_needs (q : list nat) (table : list nat) : list bool :=
+Fixpoint collector_needs (q : list N) (table : list N) : list bool :=
   match q with
   | [] => []
   | k :: r => if mem k table then false :: collector_needs r table else true :: collector_needs r (k :: table)
   end.
 
 (* the whole tool with a child that answers [ans l] to line l *)
-Definition cache_run (ans : line -> line) (ls : list (nat * line)) : list (option line) :=
+Definition cache_run (ans : line -> line) (ls : list (N * line)) : list (option line) :=
   collector (map fst (feeder ls [])) [] (map ans (sent ls [])).
 
 (* specification: the answer to the first line with the same key *)
-Fixpoint first_line (k : nat) (ls : list (nat * line)) : option line :=
+Fixpoint first_line (k : N) (ls : list (N * line)) : option line :=
   match ls with
   | [] => None
-  | (k', l) :: r => if Nat.eqb k k' then Some l else first_line k r
+  | (k', l) :: r => if N.eqb k k' then Some l else first_line k r
   end.
 
-Definition cache_spec (ans : line -> line) (ls : list (nat * line)) : list (option line) :=
+Definition cache_spec (ans : line -> line) (ls : list (N * line)) : list (option line) :=
   map (fun kl => option_map ans (first_line (fst kl) ls)) ls.
 
-(* first occurrences, each once, in input order *)
-Fixpoint first_occurrences (ls : list (nat * line)) (seen : list nat) : list line :=
+(* ---- independent vocabulary for "the child receives precisely the first-occurrence lines" ---- *)
+(* the forwarded lines together with their keys (sent = map snd sent_pairs, lemma sent_pairs_snd) *)
+Fixpoint sent_pairs (ls : list (N * line)) (seen : list N) : list (N * line) :=
   match ls with
   | [] => []
-  | (k, l) :: r => if mem k seen then first_occurrences r seen else l :: first_occurrences r (k :: seen)
+  | (k, l) :: r => if mem k seen then sent_pairs r seen else (k, l) :: sent_pairs r (k :: seen)
+  end.
+
+(* order-preserving sub-list (same definition as C01 uses for dedupe's output) *)
+Inductive Subseq {A : Type} : list A -> list A -> Prop :=
+| SubNil : Subseq [] []
+| SubSkip x s l : Subseq s l -> Subseq s (x :: l)
+| SubTake x s l : Subseq s l -> Subseq (x :: s) (x :: l).
+
+(* ---- any child that writes one line per line read, state allowed: a function from the list of lines
+   it is given to the list of its answer lines, of the same length ---- *)
+Definition cache_run_gen (child : list line -> list line) (ls : list (N * line)) : list (option line) :=
+  collector (map fst (feeder ls [])) [] (child (sent ls [])).
+
+(* position of a key in a list of keys *)
+Fixpoint index_of (k : N) (ks : list N) : nat :=
+  match ks with
+  | [] => 0
+  | k' :: r => if N.eqb k k' then 0 else S (index_of k r)
+  end.
+
+(* specification for such a child: input line i gets the answer line the child wrote for the first line
+   with the same key, i.e. answer number (position of the key among the keys of the forwarded lines) of
+   the child's output *)
+Definition cache_spec_gen (child : list line -> list line) (ls : list (N * line)) : list (option line) :=
+  map (fun kl => nth_error (child (sent ls [])) (index_of (fst kl) (map fst (sent_pairs ls [])))) ls.
+
+(* ---- bytes: Output() writes every value followed by a newline; None = the tool aborted (child stopped early) ---- *)
+Fixpoint all_some {A} (l : list (option A)) : option (list A) :=
+  match l with
+  | [] => Some []
+  | Some x :: r => option_map (cons x) (all_some r)
+  | None :: _ => None
   end.
